@@ -798,6 +798,23 @@ func (e *Env) evalCall(n *spec.Call) (SV, error) {
 			return SV{}, fmt.Errorf("wf() of untyped value")
 		}
 		return SV{T: vc.tt.wf(v.Ty, v.T, e.state().Alloc)}, nil
+	case "inst":
+		// inst(p): p is nil or the start of an instance of its struct type (see tyStart)
+		v, err := arg(0)
+		if err != nil {
+			return SV{}, err
+		}
+		if v.Ty == nil {
+			return SV{}, fmt.Errorf("inst() of untyped value")
+		}
+		// ... and allocated in the current state (heap contents read in a quantified spec
+		// expression carry no type invariant of their own)
+		al := Or(Eq(PObj(v.T), IntLit(0)), And(Ge(PObj(v.T), IntLit(1)), Le(PObj(v.T), e.state().Alloc)))
+		ts, ok := vc.tt.tyStart(v.Ty, v.T)
+		if !ok {
+			return SV{T: al}, nil
+		}
+		return SV{T: And(al, ts)}, nil
 	case "allocated":
 		v, err := arg(0)
 		if err != nil {
